@@ -2,7 +2,10 @@
 
 package sod
 
-import "errors"
+import (
+	"errors"
+	"time"
+)
 
 // C17 — schema guard.  Function-local struct types with the same name
 // stand for "the Go struct changed shape between two runs".
@@ -156,4 +159,63 @@ func VH_C17_settings() {
 		s := db.Search(&vGuard{}, "A", "=", a)
 		vAssert("C17.settings.search", s.Err() == nil && vIff(s.Len() == 1, got.(*vGuard).A == a))
 	}
+}
+
+// VH_C17_toggle: Create with a compatible schema may switch cache and
+// asynchronous-write settings at any time without losing pending writes
+// or disturbing the running process.
+func VH_C17_toggle() {
+	root := vTempDir()
+	db := Open(root)
+	LowercaseNames = false
+	mk := func(k int) Schema {
+		s := DefaultSchema
+		switch k {
+		case 1:
+			s.Cache = true
+		case 2:
+			s.Asynchrone(1000, 200*time.Millisecond)
+		case 3:
+			s.Cache = true
+			s.Asynchrone(1000, 200*time.Millisecond)
+		}
+		return s
+	}
+	first := vChoice("first", 4)
+	vAssert("C17.toggle.create", db.Create(&vObj{}, mk(first)) == nil)
+	var rows []vhRow
+	o := vhNewObj()
+	vAssert("C17.toggle.insert1", db.InsertOrUpdate(o) == nil)
+	rows = append(rows, vhRow{o.UUID(), *o})
+	// warm the cache
+	_, err := db.GetByUUID(&vObj{}, o.UUID())
+	vAssert("C17.toggle.get1", err == nil)
+	second := vChoice("second", 4)
+	vAssert("C17.toggle.recreate", db.Create(&vObj{}, mk(second)) == nil)
+	// the running flusher (if any) keeps polling: it must not crash the process
+	crashed := vCatch(func() { vRunSpawned(1) })
+	vAssert("C17.toggle.flusher_survives", !crashed)
+	switch vChoice("then", 3) {
+	case 0: // update under the new settings
+		u := &vObj{A: vInt64("A2"), S: "s", U: 9}
+		u.Initialize(o.UUID())
+		vAssert("C17.toggle.update", db.InsertOrUpdate(u) == nil)
+		rows[0].o = *u
+	case 1: // delete under the new settings
+		d := &vObj{}
+		d.Initialize(o.UUID())
+		vAssert("C17.toggle.delete", db.Delete(d) == nil)
+		rows = nil
+	case 2:
+	}
+	if vChoice("third", 2) == 1 {
+		vAssert("C17.toggle.recreate2", db.Create(&vObj{}, mk(first)) == nil)
+		crashed := vCatch(func() { vRunSpawned(1) })
+		vAssert("C17.toggle.flusher_survives2", !crashed)
+	}
+	vhCheckReads("C17.toggle.reads", db, rows)
+	// nothing accepted is lost: after Close a fresh handle sees the same
+	vAssert("C17.toggle.close", db.Close() == nil)
+	db2 := Open(root)
+	vhCheckReads("C17.toggle.after_close", db2, rows)
 }
